@@ -103,6 +103,19 @@ def call_name(call: ast.Call) -> str:
     return ""
 
 
+def call_args(call: ast.Call, params: list[str]) -> dict[str, ast.AST]:
+    """arguments of a call by parameter name, whether passed positionally or by keyword
+    (params = the callee's positional parameter names without self)"""
+    out: dict[str, ast.AST] = {}
+    for i, a in enumerate(call.args):
+        if i < len(params) and not isinstance(a, ast.Starred):
+            out[params[i]] = a
+    for k in call.keywords:
+        if k.arg:
+            out[k.arg] = k.value
+    return out
+
+
 def attr_chain(node: ast.AST) -> str:
     try:
         return ast.unparse(node)
